@@ -438,6 +438,59 @@ fn exec_pack(dsize: &str, tsize: &str, adds: &str) -> String {
     format!("ok {}", if ks.is_empty() { "-".into() } else { ks.join(",") })
 }
 
+
+/// `c07 many <dsize> <n> <len> <dups>`: ONE run of the real packer pipeline (hook `pack_blobs`) with `n` pairwise different
+/// data blobs of `len` bytes (label i = position) followed by the blobs named in `dups` (`i,j,…`) once more — far behind their
+/// first occurrence, whose pack has long been written and indexed (at most a few packs are in flight).  With `n` above the
+/// indexer's `MAX_COUNT` the intermediate index-file flush lies between the two occurrences.  Observation `ok keys=<n>`.
+/// Oracles: no key twice in the index files (`blob-stored-twice`), packs written = packs indexed, `data_blobs` = n, and the
+/// flush really happened when `n >= MAX_COUNT` (`index-not-flushed`).
+fn exec_many(dsize: &str, n: &str, len: &str, dups: &str) -> String {
+    let (Ok(dsize), Ok(n), Ok(len)) = (dsize.parse::<u64>(), n.parse::<usize>(), len.parse::<usize>()) else {
+        return "bad-op".into();
+    };
+    if n > 400_000 || !(8..=4096).contains(&len) {
+        return "bad-op".into();
+    }
+    let dups: Option<Vec<usize>> = if dups == "-" { Some(vec![]) } else { dups.split(',').map(|x| x.parse().ok().filter(|i| *i < n)).collect() };
+    let Some(dups) = dups else { return "bad-op".into() };
+    let cfg = crate::dispatch::c11::fixed64_config().set_datapack_size(bytesize::ByteSize(dsize)).set_datapack_growfactor(0u32);
+    let (h, repo) = match RepoHandle::init_nc(MemBackend::new(), None, &cfg) {
+        Ok(x) => x,
+        Err(e) => return crate::util::errkind(&e),
+    };
+    let blob = |i: usize| -> (BlobType, Vec<u8>, BlobId) {
+        let mut data = vec![0u8; len];
+        data[..8].copy_from_slice(&(i as u64).to_le_bytes());
+        (BlobType::Data, data, BlobId::from(crate::dispatch::c11::fake_id(i as u64, 0xC8)))
+    };
+    let blobs: Vec<_> = (0..n).chain(dups.iter().copied()).map(blob).collect();
+    let stats = match rustic_core::verif::packer::pack_blobs(&repo, blobs) {
+        Ok(s) => s,
+        Err(e) => return crate::util::errkind(&e),
+    };
+    drop(repo);
+    let (keys, packs) = match index_keys(&h) {
+        Ok(x) => x,
+        Err(e) => return crate::util::errkind(&e),
+    };
+    let twice = keys.values().filter(|c| **c > 1).count();
+    if twice > 0 {
+        return format!("oracle-fail:blob-stored-twice:{twice}");
+    }
+    let stored: BTreeSet<Id> = h.be.ids(FileType::Pack).into_iter().collect();
+    if stored != packs {
+        return format!("oracle-fail:packs-written-vs-indexed:{}:{}", stored.len(), packs.len());
+    }
+    if stats[0].0 as usize != keys.len() {
+        return format!("oracle-fail:stats-vs-index:{}:{}", stats[0].0, keys.len());
+    }
+    if n >= rustic_core::verif::indexer::MAX_COUNT && h.be.ids(FileType::Index).len() < 2 {
+        return "oracle-fail:index-not-flushed".into();
+    }
+    format!("ok keys={}", keys.len())
+}
+
 // ------------------------------------------------------------------------------------------------
 // generator
 
@@ -646,6 +699,21 @@ pub fn generate(thorough: bool, rng: &mut Rng, ops: &mut Vec<String>, stats: &mu
         let mut r = rng.fork();
         ops.push(gen_pack(&mut r, stats));
     }
+    // one run with more blobs than the indexer keeps in one index file, chunks recurring behind the intermediate flush
+    let max = rustic_core::verif::indexer::MAX_COUNT;
+    for k in 0..(if thorough { 6 } else { 2 }) {
+        let mut r = rng.fork();
+        // the first case stays below the flush threshold (cheap), the others cross it
+        let n = if k == 0 { 3000 + r.below(2000) as usize } else { max + 8000 + r.below(4000) as usize };
+        let len = *r.pick(&[8usize, 16, 64, 256]);
+        // packs of roughly 1000..4000 blobs (stored blob = len + 32 bytes)
+        let dsize = (len as u64 + 32) * (1000 + r.below(3000));
+        let nd = 1 + r.below(6) as usize;
+        // recurring blobs: from the first packs (long indexed when they come again)
+        let dups: Vec<String> = (0..nd).map(|_| r.below((n / 4) as u64).to_string()).collect();
+        stats.hit(if n >= max { "many.flushed" } else { "many.small" });
+        ops.push(format!("c07 many {dsize} {n} {len} {}", dups.join(",")));
+    }
 }
 
 pub fn exec(t: &[&str]) -> String {
@@ -653,6 +721,7 @@ pub fn exec(t: &[&str]) -> String {
     guarded(move || match t.iter().map(String::as_str).collect::<Vec<_>>().as_slice() {
         ["hist", parent, avg, min, max, table, states] => exec_hist(parent, avg, min, max, table, states),
         ["pack", dsize, tsize, adds] => exec_pack(dsize, tsize, adds),
+        ["many", dsize, n, len, dups] => exec_many(dsize, n, len, dups),
         _ => "bad-op".into(),
     })
 }
